@@ -280,9 +280,9 @@ theorem runTask_li : ∀ (fuel : Nat) (c : Conn) (n : Nat) (sa : Option Nat), LI
     have h0 := prePoll_li c n sa h
     have hp0 : AllProp (prePoll c n sa) :=
       allProp_of_frame (prePoll_frame c n sa).1 (prePoll_frame c n sa).2 hp
-    have hli := pollConn_li 100000 _ h0 hp0
-    have hap := pollConn_allProp 100000 _ hp0
-    generalize pollConn 100000 (prePoll c n sa) = x at hli hap ⊢
+    have hli := pollConn_li (connFuel (prePoll c n sa)) _ h0 hp0
+    have hap := pollConn_allProp (connFuel (prePoll c n sa)) _ hp0
+    generalize pollConn (connFuel (prePoll c n sa)) (prePoll c n sa) = x at hli hap ⊢
     obtain ⟨c1, res⟩ := x
     cases res with
     | finished => exact hli.1
